@@ -26,6 +26,8 @@ Abstracted: the sorted slice inside `alert.Topic` (C09 proves it faithful: one s
 duration of an event state; flapping, stateChangesOnly-duration, level reset expressions, inhibitors (not used by
 the harness' task); handler registration churn (C09) — `told` is what a handler registered on the topic all the
 time is handed (enqueue = told; queue overflow is outside the model).
+A FAILING storage transaction (`Micro.txFail`, `FOp`) is still attempted (crash points before/after it exist) but
+commits nothing; the operation returns the error (`FOp.reportsError`).
 A CRASH keeps `disk` (and the outside world's memory of what handlers were told) and loses everything else.
 Core Lean only (the compiled driver imports this file).
 -/
@@ -86,10 +88,11 @@ inductive Micro where
   | restoreTopic (T : String)
   | dropMem (T : String)
   | txDelTopic (T : String)
+  | txFail                            -- a storage transaction that fails: its function ran, nothing was committed
 deriving Repr, Inhabited, DecidableEq
 
 def Micro.isTx : Micro → Bool
-  | .txPut .. | .txDel .. | .txDelTopic .. => true
+  | .txPut .. | .txDel .. | .txDelTopic .. | .txFail => true
   | _ => false
 
 def setFlag (f : String → Bool) (T : String) (b : Bool) : String → Bool :=
@@ -106,6 +109,7 @@ def exec (s : Svc) : Micro → Svc
   | .restoreTopic T => { s with mem := s.mem.loadTopic T s.disk }
   | .dropMem T => { s with mem := s.mem.dropTopic T, closed := setFlag s.closed T false }
   | .txDelTopic T => { s with disk := s.disk.dropTopic T }
+  | .txFail => s
 
 def runMicros (s : Svc) (ms : List Micro) : Svc := ms.foldl exec s
 
@@ -153,6 +157,30 @@ restart the remaining operations are processed to the end. -/
 def multiCrash (s : Svc) (ops : List Op) : List (Nat × Nat) → Svc
   | [] => run s ops
   | (k, j) :: cs => multiCrash (crashAt s ops k j).restart (ops.drop (k + 1)) cs
+
+/-! ### storage failures: `Update` returns an error -/
+
+/-- the `n`-th transaction (1-based; 0 = none) of a list of sub-steps fails: it is still attempted (a crash point
+before and after it exists) but commits nothing -/
+def failTx (isTx : α → Bool) (failed : α) (n : Nat) (ms : List α) : List α :=
+  let rec go : List α → Nat → List α
+    | [], _ => []
+    | x :: rest, seen =>
+      if isTx x then (if seen + 1 = n then failed :: go rest (seen + 1) else x :: go rest (seen + 1))
+      else x :: go rest seen
+  if n = 0 then ms else go ms 0
+
+/-- an operation together with the number of its transaction that fails (0 = none) -/
+abbrev FOp := Op × Nat
+
+def FOp.micros (f : FOp) : List Micro := failTx Micro.isTx .txFail f.2 f.1.micros
+/-- `Collect`/`UpdateEvent`/`DeleteTopic` return the error of their storage transaction to the caller -/
+def FOp.reportsError (f : FOp) : Bool := f.2 ≠ 0 && decide (f.2 ≤ (f.1.micros.filter Micro.isTx).length)
+
+def fstep (s : Svc) (f : FOp) : Svc := runMicros s f.micros
+def frun (s : Svc) (fops : List FOp) : Svc := fops.foldl fstep s
+def fcrashAt (s : Svc) (fops : List FOp) (k j : Nat) : Svc :=
+  runMicros (frun s (fops.take k)) (((fops[k]?).map FOp.micros).getD [] |>.take j)
 
 /-! ### The alert node on top of the service -/
 
